@@ -443,7 +443,8 @@ def run_impl(case: dict, root: str, tracer: Tracer) -> list:
             # opens seen by the interpreter-wide audit hook that did not go through _core.open
             traced = [e[1] for e in tracer.events if e[0] == "O"]
             stray = [p for p in _AUDIT["paths"] if p not in traced and not p.endswith("dst.bin")]
-            out.append({"events": tracer.events, "res": r, "stray_opens": stray})
+            out.append({"events": list(tracer.events), "res": r, "stray_opens": stray})
+            tracer.events = []
         t.release()
     finally:
         os.chdir(old)
@@ -797,3 +798,444 @@ def eval_worlds(ck, batch: list, tag: str) -> list:
         raise RuntimeError(f"case file {tag}: expected {3 * len(batch)} result lists, got {len(lists)}:\n{out[-2000:]}")
     parsed = [[] if l == "nil" else [int(x) for x in re.findall(r"\d+", l)] for l in lists]
     return [tuple(parsed[3 * i:3 * i + 3]) for i in range(len(batch))]
+
+
+# =========================================================================== onnx_ir.load
+
+def build_model_file(path: str, inside_loc: str, escape_loc: str) -> None:
+    """A model whose external tensors sit in every place load() should visit: graph initializer, node
+    attribute, subgraph initializer, and a node attribute inside a model-local function."""
+    import onnx
+    from onnx import TensorProto, helper
+
+    def ext(name, loc):
+        t = TensorProto()
+        t.name = name
+        t.data_type = TensorProto.UINT8
+        t.dims.extend([2])
+        t.data_location = TensorProto.EXTERNAL
+        e = t.external_data.add()
+        e.key, e.value = "location", loc
+        return t
+
+    fn = helper.make_function(
+        "dom", "F", [], ["c"],
+        [helper.make_node("Constant", [], ["c"], value=ext("func_in", inside_loc)),
+         helper.make_node("Constant", [], ["c2"], value=ext("func_esc", escape_loc))],
+        [helper.make_opsetid("", 18)])
+    sub = helper.make_graph([helper.make_node("Constant", [], ["sc"], value=ext("subattr_esc", escape_loc))], "sub", [],
+                            [helper.make_tensor_value_info("sc", TensorProto.UINT8, [2])],
+                            initializer=[ext("subinit_in", inside_loc)])
+    g = helper.make_graph(
+        [helper.make_node("F", [], ["y"], domain="dom"),
+         helper.make_node("If", ["cond"], ["o"], then_branch=sub, else_branch=sub),
+         helper.make_node("Constant", [], ["gc"], value=ext("attr_esc", escape_loc))],
+        "g", [helper.make_tensor_value_info("cond", TensorProto.BOOL, [])],
+        [helper.make_tensor_value_info("y", TensorProto.UINT8, [2])],
+        initializer=[ext("init_in", inside_loc), ext("init_esc", escape_loc)])
+    m = helper.make_model(g, functions=[fn],
+                          opset_imports=[helper.make_opsetid("", 18), helper.make_opsetid("dom", 1)])
+    onnx.save(m, path)
+
+
+def model_tensors(model) -> list:
+    """[(where, tensor)] for every ExternalTensor of a loaded model, found by walking the public IR."""
+    import onnx_ir as ir
+    out = []
+
+    def visit_graph(gr, where):
+        for v in gr.initializers.values():
+            if isinstance(v.const_value, ir.ExternalTensor):
+                out.append((where, v.const_value))
+        for n in gr:
+            visit_node(n, where)
+
+    def visit_node(n, where):
+        for a in n.attributes.values():
+            if a.type == ir.AttributeType.TENSOR and isinstance(a.value, ir.ExternalTensor):
+                out.append((where, a.value))
+            elif a.type == ir.AttributeType.GRAPH:
+                visit_graph(a.value, where)
+            elif a.type == ir.AttributeType.GRAPHS:
+                for g2 in a.value:
+                    visit_graph(g2, where)
+
+    visit_graph(model.graph, "graph")
+    for f in model.functions.values():
+        for n in f:
+            visit_node(n, "function")
+    seen, uniq = set(), []
+    for w, t in out:
+        if id(t) not in seen:
+            seen.add(id(t))
+            uniq.append((w, t))
+    return uniq
+
+
+def load_spellings(rng, d: str, links_to: list) -> list:
+    """(cwd rel, spelling) for the model file m.onnx in world dir d."""
+    parts = d.split("/") if d else []
+    sp = [("", W + "/" + (d + "/" if d else "") + "m.onnx"),
+          (d, "m.onnx"),                                  # bare file name
+          (d, "./m.onnx"),
+          (d, ".//m.onnx"),
+          ("", (d + "/" if d else "") + "m.onnx"),
+          ("", "/" + W + "/" + (d + "/" if d else "") + "m.onnx"),
+          ("", W + "/" + (d + "/" if d else "") + "./m.onnx")]
+    if parts:
+        sp.append(("/".join(parts[:-1]), parts[-1] + "/m.onnx"))
+        sp.append((d, "../" + parts[-1] + "/m.onnx"))
+    for l in links_to:
+        sp.append(("", W + "/" + l + "/m.onnx"))
+        sp.append(("", l + "/m.onnx"))
+    return sp
+
+
+def run_load(root: str, d: str, cwd: str, spelling: str, snap: Snapshot) -> dict:
+    """ir.load with one spelling; observations: base_dir of every tensor + what reading it gives."""
+    import onnx_ir as ir
+    old = os.getcwd()
+    os.chdir(os.path.join(root, cwd))
+    obs = {"tensors": []}
+    try:
+        try:
+            model = ir.load(spelling.replace(W, root))
+        except Exception as e:  # noqa: BLE001
+            obs["load_error"] = common.exn_name(e)
+            return obs
+        want = os.stat(os.path.join(root, d))
+        for where, t in model_tensors(model):
+            b = os.fspath(t.base_dir)
+            ent = {"where": where, "name": t.name, "base_dir": b}
+            try:
+                st = os.stat(b) if b else None
+                ent["same_dir"] = bool(st) and (st.st_dev, st.st_ino) == (want.st_dev, want.st_ino)
+            except OSError:
+                ent["same_dir"] = False
+            try:
+                ent["read"] = ["ok", bytes(t.tobytes())]
+            except Exception as e:  # noqa: BLE001
+                ent["read"] = ["raise", common.exn_name(e)]
+            t.release()
+            obs["tensors"].append(ent)
+    finally:
+        os.chdir(old)
+    return obs
+
+
+def oracle_load(obs: dict, canary: int) -> list:
+    """(where, message) failures: base_dir non-empty and the model's directory for EVERY tensor; no canary bytes."""
+    bad = []
+    if "load_error" in obs:
+        return [("load", "load raised " + obs["load_error"])]
+    for e in obs["tensors"]:
+        if e["base_dir"] == "":
+            bad.append((e["where"], f"{e['name']}: base_dir is empty after load"))
+        elif not e["same_dir"]:
+            bad.append((e["where"], f"{e['name']}: base_dir {e['base_dir']!r} is not the model's directory"))
+        if e["read"][0] == "ok" and canary in e["read"][1]:
+            bad.append((e["where"], f"{e['name']}: read canary bytes from outside the model directory"))
+        if e["name"].endswith("_esc") and e["read"][0] == "ok":
+            bad.append((e["where"], f"{e['name']}: escaping location was read"))
+    return bad
+
+
+LOAD_PLAN = [["dir", "da"], ["dir", "da/sub"], ["dir", "outside"], ["file", "outside/secret", 200, 8],
+             ["file", "da/w.bin", 7, 4], ["symlink", "lbase", "da"], ["symlink", "da/sub/up", ".."]]
+
+
+def load_tie(ck, idx: int):
+    """Returns (frows for coq [(5, cwd, spelling, '', observed graph base)], failures [(case, bad)])."""
+    root = os.path.join(ck.scratch, f"lw{idx}")
+    shutil.rmtree(root, ignore_errors=True)
+    materialise(LOAD_PLAN, root)
+    snap = Snapshot(root)
+    failures, rows, n = [], [], 0
+    for d, links in (("da", ["lbase", "da/sub/up"]), ("", []), ("da/sub", [])):
+        mp = os.path.join(root, d, "m.onnx")
+        esc = ck.rng.choice(["../outside/secret", root + "/outside/secret", "../" * 3 + "outside/secret"]) \
+            if d else root + "/../" + os.path.basename(root) + "x"
+        if d == "da/sub":
+            esc = "../../outside/secret"
+        inside = "w.bin" if d == "da" else ("../w.bin" if d == "da/sub" else "da/w.bin")
+        build_model_file(mp, inside, esc)
+        for cwd, sp in load_spellings(ck.rng, d, links):
+            obs = run_load(root, d, cwd, sp, snap)
+            n += 1
+            ck.count()
+            ck.hist("load_spellings", "bare" if "/" not in sp else ("absolute" if sp.startswith(("/", W)) else "relative"))
+            bad = oracle_load(obs, 200)
+            case = {"kind": "load", "plan": LOAD_PLAN, "dir": d, "cwd": cwd, "spelling": sp, "inside": inside,
+                    "escape": esc.replace(root, W)}
+            if bad:
+                failures.append((case, bad, obs))
+            for e in obs["tensors"]:
+                if e["where"] == "graph":
+                    rows.append((5, cwd, sp.replace(W, root), "", e["base_dir"]))
+                    break
+            ck.nontriv(("load", d, cwd, sp))
+        os.remove(mp)
+    return root, snap, rows, failures, n
+
+
+def replay_load_case(case: dict, root: str) -> list:
+    shutil.rmtree(root, ignore_errors=True)
+    materialise(case["plan"], root)
+    snap = Snapshot(root)
+    build_model_file(os.path.join(root, case["dir"], "m.onnx"), case["inside"], case["escape"].replace(W, root))
+    obs = run_load(root, case["dir"], case["cwd"], case["spelling"], snap)
+    return oracle_load(obs, 200)
+
+
+# =========================================================================== replay / shrink / search
+
+def run_history_case(item: dict, root: str, tracer: Tracer) -> tuple[list, list]:
+    shutil.rmtree(root, ignore_errors=True)
+    materialise(item["plan"], root)
+    snap = Snapshot(root)
+    obs = run_impl(item["case"], root, tracer)
+    return obs, oracle(item["case"], obs, snap, root)
+
+
+def shrink_history(item: dict, root: str, tracer: Tracer) -> dict:
+    def fails(it):
+        try:
+            return bool(run_history_case(it, root, tracer)[1])
+        except Exception:  # noqa: BLE001
+            return False
+    cur = json.loads(json.dumps(item))
+    # single ops first
+    ops = cur["case"]["ops"]
+    for i in range(len(ops)):
+        for cand in (ops[:i + 1], [o for o in ops[:i + 1] if o[0] == "setbase"] + [ops[i]], [ops[i]]):
+            c2 = json.loads(json.dumps(cur))
+            c2["case"]["ops"] = cand
+            if len(cand) < len(cur["case"]["ops"]) and fails(c2):
+                cur = c2
+    changed = True
+    while changed:
+        changed = False
+        for i in range(len(cur["plan"]) - 1, -1, -1):
+            c2 = json.loads(json.dumps(cur))
+            del c2["plan"][i]
+            if fails(c2):
+                cur, changed = c2, True
+    for key, val in (("off", None), ("len", None)):
+        if cur["case"][key] != val:
+            c2 = json.loads(json.dumps(cur))
+            c2["case"][key] = val
+            if fails(c2):
+                cur = c2
+    return cur
+
+
+def search(ck, tracer: Tracer) -> bool:
+    """After a broken obligation / correspondence: fresh worlds, oracle only."""
+    budget = 40 if not ck.thorough else 400
+    for i in range(budget):
+        plan = gen_world(ck.rng)
+        root = os.path.join(ck.scratch, "search")
+        shutil.rmtree(root, ignore_errors=True)
+        materialise(plan, root)
+        snap = Snapshot(root)
+        for c in gen_cases(ck.rng, root, 40):
+            obs = run_impl(c, root, tracer)
+            ck.count()
+            bad = oracle(c, obs, snap, root)
+            if bad:
+                small = shrink_history({"kind": "history", "plan": plan, "case": c}, os.path.join(ck.scratch, "shrink"), tracer)
+                _, bad2 = run_history_case(small, os.path.join(ck.scratch, "shrink"), tracer)
+                ck.violation(dict(small, failures=bad2, broken=ck.broken_items))
+                return True
+    return False
+
+
+def replay(rp: dict) -> int:
+    kind = rp.get("kind")
+    root = os.path.join(common.SCRATCH_ROOT, f"replay-C10-{os.getpid()}", "w")
+    os.makedirs(os.path.dirname(root), exist_ok=True)
+    try:
+        if kind == "history":
+            tr = Tracer()
+            tr.install()
+            ensure_audit()
+            try:
+                obs, bad = run_history_case(rp, root, tr)
+            finally:
+                tr.uninstall()
+            print(json.dumps({"case": rp["case"], "observed": [[o["events"], [o["res"][0], repr(o["res"][1])]] for o in obs],
+                              "failures": bad}, indent=1, default=str))
+            return 1 if bad else 0
+        if kind == "load":
+            bad = replay_load_case(rp, root)
+            print(json.dumps({"case": {k: rp[k] for k in ("dir", "cwd", "spelling", "escape")}, "failures": bad}, indent=1))
+            return 1 if bad else 0
+        print("replay names a broken obligation/correspondence, no concrete input:",
+              json.dumps(rp.get("broken"), indent=1)[:3000])
+        return 1
+    finally:
+        shutil.rmtree(os.path.dirname(root), ignore_errors=True)
+
+
+# =========================================================================== main
+
+def load_known_key(bad: list) -> str | None:
+    """A load failure is the known finding iff every failing tensor is inside a model-local function."""
+    return "load-function-tensors" if bad and all(w == "function" for w, _ in bad) else None
+
+
+def run(ck) -> None:
+    import logging
+    logging.disable(logging.WARNING)
+    ck.trust("Coq 8.16.1 kernel (coqc; vm_compute in case files; no native_compute)",
+             "harness/props/c10.py (world/location generators, lstat snapshot -> Coq node literal, tracer, oracle)",
+             "modelled not verified: POSIX path resolution (kwalk: dirs/regular files/symlinks, nesting bound instead of "
+             "Linux's 40-links-per-walk), CPython 3.12 posixpath (py_* transcriptions, validated against os.path on every run), "
+             "mmap/np.frombuffer/copy_file_range (bytes = file[offset:offset+n])",
+             "not modelled: TOCTOU between check and open, non-POSIX normcase, special files (FIFO/device), permissions, "
+             "non-ASCII names, embedded NUL")
+    ck.assumptions += ["POSIX platform (os.sep == '/', normcase = identity)", "file system unchanged between check and open",
+                       "only directories, regular files and symlinks under the model directory"]
+    ck.coverage["rule"] = ("nontrivial = a history step whose check passed the lexical layer and was decided by realpath / "
+                           "st_nlink / open (i.e. reached symlink, hard-link or kernel resolution), or a load() spelling")
+    ck.prove()
+    tracer = Tracer()
+    tracer.install()
+    ensure_audit()
+    try:
+        _run(ck, tracer)
+    finally:
+        tracer.uninstall()
+
+
+def _run(ck, tracer: Tracer) -> None:
+    n_worlds = 12 if not ck.thorough else 160
+    per_world = 30 if not ck.thorough else 45
+    oracle_fail = []          # (item, bad)
+    batches, batch = [], []
+    widx = 0
+    # 1. corpus first (each item is its own world)
+    corpus_dir = os.path.join(common.CORPUS, "C10")
+    corpus_items = []
+    if os.path.isdir(corpus_dir):
+        for fn in sorted(os.listdir(corpus_dir)):
+            with open(os.path.join(corpus_dir, fn)) as f:
+                corpus_items.append((fn, json.load(f)))
+    for fn, it in corpus_items:
+        if it.get("kind") == "history":
+            root, snap, results, fr, kr = run_world(ck, widx, it["plan"], [it["case"]], 0, tracer)
+            batch.append((widx, root, snap, results, fr[:60], filter_krows(kr, snap)[:60]))
+            for c, o, bad in results:
+                ck.count()
+                if bad:
+                    oracle_fail.append(({"kind": "history", "plan": it["plan"], "case": c}, bad))
+            widx += 1
+        elif it.get("kind") == "load":
+            bad = replay_load_case(it, os.path.join(ck.scratch, "corpus_load"))
+            ck.count()
+            key = load_known_key(bad)
+            if bad and not (key and ck.known(key)):
+                oracle_fail.append((it, [m for _, m in bad]))
+    # 2. generated worlds
+    for _ in range(n_worlds):
+        plan = gen_world(ck.rng)
+        root, snap, results, fr, kr = run_world(ck, widx, plan, None, per_world, tracer)
+        kr = filter_krows(kr, snap)
+        # keep the function-level rows affordable: all joins, a sample of the rest
+        if len(fr) > 260:
+            fr = [r for r in fr if r[0] == 1] + ck.rng.sample([r for r in fr if r[0] != 1], 200)
+        if len(kr) > 120:
+            kr = ck.rng.sample(kr, 120)
+        batch.append((widx, root, snap, results, fr, kr))
+        for c, o, bad in results:
+            ck.count()
+            _account(ck, c, o)
+            if bad:
+                oracle_fail.append(({"kind": "history", "plan": plan, "case": c}, bad))
+        for r in fr:
+            ck.hist("function_rows", ["normpath", "join", "dirname", "abspath", "realpath", "load_base", "parse_render"][r[0]])
+        ck.hist("function_rows", "kernel stat/lstat", len(kr))
+        ck.count(len(fr) + len(kr))
+        if len(batch) >= 3:
+            batches.append(batch)
+            batch = []
+        widx += 1
+    # 3. load()
+    lroot, lsnap, lrows, lfail, nload = load_tie(ck, 0)
+    batch.append((widx, lroot, lsnap, [], lrows, []))
+    batches.append(batch)
+    # 4. the model, inside Coq
+    ntraces = 0
+    for bi, b in enumerate(batches):
+        try:
+            res = eval_worlds(ck, b, f"cases_{bi}")
+        except RuntimeError as e:
+            ck.broken("correspondence:case-file", str(e))
+            continue
+        for (idx, root, snap, results, fr, kr), (hf, ff, kf) in zip(b, res):
+            ntraces += len(results)
+            for j in hf[:3]:
+                c, o, bad = results[j]
+                ck.broken("correspondence:ExternalTensor-history",
+                          json.dumps({"case": c, "world": root, "impl": [[s["events"], [s["res"][0], repr(s["res"][1])]] for s in o]},
+                                     default=str))
+            for j in ff[:3]:
+                name = ["normpath", "join", "dirname", "abspath", "realpath", "load_base", "parse_render"][fr[j][0]]
+                ck.broken(f"correspondence:os.path.{name}", json.dumps({"row": fr[j]}, default=str))
+            for j in kf[:3]:
+                f, cwd, x, st = kr[j]
+                ck.broken("correspondence:kernel-resolution", json.dumps({"follow": f, "cwd": cwd, "path": x,
+                                                                          "impl": None if st is None else [oct(st.st_mode), st.st_nlink]}))
+    ck.coverage["traces_validated_against_impl"] = ntraces
+    # 5. known findings: replayed on the implementation on every run
+    for k in ck._known:
+        if k.get("status") != "known":
+            continue
+        bad = replay_load_case(k["witness"], os.path.join(ck.scratch, "known"))
+        if load_known_key(bad) == k["key"]:
+            ck.known_finding(k["key"], k["what"])
+        else:
+            ck.broken(f"known-finding-stale:{k['key']}",
+                      "the recorded witness no longer fails (or fails differently) on the implementation: " + json.dumps(bad))
+    for case, bad, obs in lfail:
+        key = load_known_key(bad)
+        if key and ck.known(key):
+            ck.known_finding(key, ck.known(key)["what"])
+        else:
+            oracle_fail.append((case, [m for w, m in bad if not (w == "function" and ck.known("load-function-tensors"))]
+                                or [m for _, m in bad]))
+    # 6. oracle failures -> shrink -> VIOLATION
+    reported = set()
+    for item, bad in oracle_fail:
+        sig = tuple(sorted(set(b.split(":", 1)[-1].split("[")[0][:40] for b in bad)))
+        if sig in reported:
+            continue
+        reported.add(sig)
+        if item.get("kind") == "history":
+            small = shrink_history(item, os.path.join(ck.scratch, "shrink"), tracer)
+            _, bad2 = run_history_case(small, os.path.join(ck.scratch, "shrink"), tracer)
+            ck.violation(dict(small, failures=bad2 or bad, broken=ck.broken_items))
+        else:
+            ck.violation(dict(item, failures=bad, broken=ck.broken_items))
+    # 7. something broken but no failing input yet: search
+    if ck.broken_items and not ck.violations:
+        search(ck, tracer)
+    for s in ck.coverage.get("samples", []):
+        pass
+
+
+def _account(ck, c: dict, obs: list) -> None:
+    for op, o in zip(c["ops"], obs):
+        ck.hist("ops", op[0])
+        r = o["res"]
+        ck.hist("outcomes", "bytes" if (r[0] == "ok" and r[1]) else ("ok-empty" if r[0] == "ok" else r[1]))
+        ev = o["events"]
+        shape = "+".join(e[0] + (":" + ("ok" if e[3] == "ok" else "raise") if e[0] == "C" else "") for e in ev) or "none"
+        ck.hist("event_shapes", shape)
+        if any(e[0] == "O" for e in ev):
+            ck.nontriv((c["base"], c["loc"], c["cwd"], op[0], shape))
+    b = c["base"]
+    ck.hist("base_spelling", "absolute" if b.startswith(("/", W)) else ("dot" if b in (".", "./") else "relative"))
+    if len(ck.coverage["samples"]) < 5 and any(e[0] == "R" for o in obs for e in o["events"]):
+        ck.sample({"cwd": c["cwd"], "base": c["base"], "loc": c["loc"], "ops": c["ops"],
+                   "impl": [[o["events"], [o["res"][0], repr(o["res"][1])]] for o in obs]})
